@@ -569,6 +569,13 @@ def multi_scenarios():
                  (0x10000000, 0x10000000 + (200 << 20)), (0x200000000, 0x200000000 + (129 << 20))):
         scen.append({"mode": "multi", "lives": [{"base": a, "pages": 2, "offs": [0x100, 0x1000]}, {"base": b, "pages": 2, "offs": [0x200]},
                                                 {"base": a, "pages": 2, "offs": [0x1000, 0x300]}, {"base": b + 0x4000, "pages": 1, "offs": [0]}]})
+    # the rest of the process takes over the addresses of released trampolines (hinted mmap, code kept there); the same
+    # targets are then faked again and again
+    for base in (0x10000000, 0x200000000):
+        scen.append({"mode": "multi", "foreign_after_drop": True,
+                     "lives": [{"base": base, "pages": 2, "offs": [0x100, 0x1000]}, {"base": base, "pages": 2, "offs": [0x100]},
+                               {"base": base, "pages": 2, "offs": [0x1000, 0x100, 0x200]}, {"base": base + (64 << 20), "pages": 1, "offs": [0x80]},
+                               {"base": base, "pages": 2, "offs": [0x100, 0x1000]}]})
     return scen
 
 
